@@ -37,8 +37,10 @@ type RunCtx struct {
 	Nontrivial bool
 	// AbstractState: a per-property abstraction of what was reached (for distinct-state counting)
 	States map[string]bool
+	Run    int    // run index
 	Mode   string // profile-defined sub-mode (e.g. "faultfree", "faults", "enum")
 	Extra  map[string]int
+	Anoms  []string
 }
 
 // Violate records a violation and stops the run.
@@ -49,6 +51,13 @@ func (rc *RunCtx) Violate(oracle, class, format string, a ...any) {
 	}
 	rc.Viol = append(rc.Viol, v)
 	rc.S.Stop("violation")
+}
+
+// Anomaly records something noteworthy that is not a violation of the property as stated
+// (e.g. a liveness failure for a pure safety property); it is reported in the evidence.
+func (rc *RunCtx) Anomaly(format string, a ...any) {
+	rc.Anoms = append(rc.Anoms, fmt.Sprintf(format, a...))
+	rc.S.Event("ANOMALY %s", fmt.Sprintf(format, a...))
 }
 
 // Note appends to the run's compact sample description.
@@ -104,6 +113,8 @@ type Profile struct {
 	Rule                          string
 	Assumptions                   []string
 	Real, Stub                    []string
+	// SeedOf maps a run index to the index its seed is derived from.
+	SeedOf func(run int) int
 }
 
 var profiles = map[string]*Profile{}
@@ -143,12 +154,16 @@ func runSeed(base uint64, prop string, run int) uint64 {
 
 // ExecRun executes one run of the profile. tape != nil replays.
 func ExecRun(p *Profile, tier string, base uint64, run int, tape []uint32, trace bool) RunOut {
-	seed := runSeed(base, p.Property, run)
+	sr := run
+	if p.SeedOf != nil {
+		sr = p.SeedOf(run)
+	}
+	seed := runSeed(base, p.Property, sr)
 	mode := ""
 	if len(p.Modes) > 0 {
 		mode = p.Modes[run%len(p.Modes)]
 	}
-	rc := &RunCtx{Tier: tier, Knobs: map[string]any{}, Mode: mode, Extra: map[string]int{}}
+	rc := &RunCtx{Tier: tier, Run: run, Knobs: map[string]any{}, Mode: mode, Extra: map[string]int{}}
 	cfg := simrt.Config{Seed: seed, Tape: tape, MaxSteps: p.MaxSteps, MaxTime: p.MaxTime, Trace: trace}
 	res := simrt.Run(cfg, func(s *simrt.Sim) {
 		rc.S = s
@@ -157,7 +172,7 @@ func ExecRun(p *Profile, tier string, base uint64, run int, tape []uint32, trace
 	})
 	out := RunOut{Seed: base, Run: run, Mode: mode, Steps: res.Steps, SimTime: res.SimTime.Seconds(), Digest: fmt.Sprintf("%016x", res.Digest),
 		ILHash: res.ILHash, Stop: res.StopReason, Stats: res.Stats, Knobs: rc.Knobs, Viol: rc.Viol, Tape: res.Tape, Sample: rc.Sample,
-		Trace: res.Trace, Anoms: res.Anomalies, Nontriv: rc.Nontrivial, Extra: rc.Extra}
+		Trace: res.Trace, Anoms: append(res.Anomalies, rc.Anoms...), Nontriv: rc.Nontrivial, Extra: rc.Extra}
 	for st := range rc.States {
 		out.States = append(out.States, st)
 	}
@@ -512,7 +527,7 @@ func Main() {
 		}
 		p := profiles[rf.Property]
 		rf.OriginalTapeLen = len(rf.Tape)
-		rf.Tape = shrink(p, rf, time.Duration(envInt("VERIF_SHRINK_S", 120))*time.Second)
+		rf.Tape = shrink(p, rf, time.Duration(envInt("VERIF_SHRINK_S", 45))*time.Second)
 		o := ExecRun(p, rf.Tier, rf.Seed, rf.Run, rf.Tape, true)
 		if !sameViolation(o, rf.Expect.Oracle, rf.Expect.Class) {
 			die2("shrunk tape does not reproduce")
@@ -663,7 +678,11 @@ func checkMain(verif, prop, tier string) {
 	if len(viols) > 0 {
 		v := viols[0]
 		nviol = len(viols)
-		os.MkdirAll(filepath.Join(verif, "replays"), 0o755)
+		repDir := filepath.Join(verif, "replays")
+		if d := os.Getenv("VERIF_REPLAY_DIR"); d != "" {
+			repDir = d
+		}
+		os.MkdirAll(repDir, 0o755)
 		raw := filepath.Join(tmp, "raw.json")
 		rf := &ReplayFile{Property: prop, Tier: tier, Seed: v.Seed, Run: v.Run, Mode: v.Mode, Knobs: v.Knobs, Tape: v.Tape}
 		rf.Expect.Oracle, rf.Expect.Class, rf.Expect.Message, rf.Expect.Digest = v.Viol[0].Oracle, v.Viol[0].Class, v.Viol[0].Message, v.Digest
@@ -677,7 +696,7 @@ func checkMain(verif, prop, tier string) {
 			os.Exit(2)
 		}
 		// (b) minimise
-		final := filepath.Join(verif, "replays", fmt.Sprintf("%s-%d-%d.json", prop, v.Seed, v.Run))
+		final := filepath.Join(repDir, fmt.Sprintf("%s-%d-%d.json", prop, v.Seed, v.Run))
 		c = exec.Command(self(), "shrink", raw, final)
 		c.Env = append(os.Environ(), "GOMAXPROCS=2", "GODEBUG=randseednop=0")
 		c.Stderr = os.Stderr
@@ -767,8 +786,12 @@ func writeEvidence(verif string, p *Profile, tier string, base uint64, agg *work
 			"extra":                  agg.Extra,
 		},
 	}
-	os.MkdirAll(filepath.Join(verif, "evidence"), 0o755)
-	if err := writeJSON(filepath.Join(verif, "evidence", p.Property+".json"), ev); err != nil {
+	evDir := filepath.Join(verif, "evidence")
+	if d := os.Getenv("VERIF_EVIDENCE_DIR"); d != "" {
+		evDir = d
+	}
+	os.MkdirAll(evDir, 0o755)
+	if err := writeJSON(filepath.Join(evDir, p.Property+".json"), ev); err != nil {
 		die2("%v", err)
 	}
 }
